@@ -261,6 +261,81 @@ let idx (t : string) = int_of_string (String.sub t 1 (String.length t - 1))
 let target (t : string) : int * n option =     (* socket, ctx *)
   if t.[0] = 'c' then (Hashtbl.find ctx_sock (idx t), Some (n_of_int (idx t))) else (idx t, None)
 
+
+(* ---- the message-manipulation family (coq/Ledger/ChunkAlloc.v, rules of the current source:
+   Ledger/ChunkCur.v): slots m0..m15, the allocator events of every call, the allocator's books ---- *)
+let m_ssz = ref 248
+let m_st = ref (ms_init (Conv.nat_of_int 16))
+let m_fail : nat option ref = ref None
+let m_books : (int, int) Hashtbl.t = Hashtbl.create 64      (* block id -> size it was allocated with *)
+let m_tab : (nat * n) list option ref = ref (Some [])       (* the same books, kept by the extracted treplay *)
+let m_reset () = m_st := ms_init (Conv.nat_of_int 16); m_fail := None; Hashtbl.reset m_books; m_tab := Some []
+
+let m_obs (k : int) : string =
+  match mobs !m_st (Conv.nat_of_int k) with
+  | Some ((((len, hlen), cap), blk), head) ->
+      Printf.sprintf "%d:%d:%d:%d:%d" (int_of_n len) (int_of_n hlen) (int_of_n cap) (int_of_n blk) (int_of_n head)
+  | None -> "-"
+
+(* one operation: returns the printed line *)
+let m_apply (o : mop) (show : int) : string =
+  let ((st', rv), evs) = mstep_cur (n_of_int !m_ssz) !m_st o !m_fail in
+  m_st := st'; m_fail := None;
+  let mism = ref "" in
+  let strs = List.filter_map (fun e ->
+    match e with
+    | EA (b, n) -> Hashtbl.replace m_books (Conv.int_of_nat b) (int_of_n n); Some (Printf.sprintf "A%d" (int_of_n n))
+    | EF (b, n) ->
+        let b = Conv.int_of_nat b and n = int_of_n n in
+        (match Hashtbl.find_opt m_books b with
+         | Some a ->
+             Hashtbl.remove m_books b;
+             if a <> n && !mism = "" then mism := Printf.sprintf " free-size-mismatch %d %d" a n;
+             Some (Printf.sprintf "F%d:%d" a n)
+         | None -> Some (Printf.sprintf "F?:%d" n))
+    | EI (b, n) -> Hashtbl.replace m_books (Conv.int_of_nat b) (int_of_n n); None
+    | EX (b, _) -> Hashtbl.remove m_books (Conv.int_of_nat b); None) evs in
+  let broken =
+    (match !m_tab with
+     | Some t -> (match treplay t evs with
+                  | Some t' -> m_tab := Some t'; ""
+                  | None -> m_tab := None; if !mism = "" then " BOOKS-BROKEN" else "")
+     | None -> "") in
+  Printf.sprintf "m rv=%d s=%s ev=%s%s%s" (int_of_n rv) (m_obs show)
+    (if strs = [] then "-" else String.concat "," strs) !mism broken
+
+let m_command (op : string) (args : string list) : string option =
+  let slot t = int_of_string (String.sub t 1 (String.length t - 1)) in
+  let num t = n_of_int (min (int_of_string t) 65536) in
+  let nk k = Conv.nat_of_int k in
+  match op, args with
+  | "mssz", v :: _ -> m_ssz := int_of_string v; Some (Printf.sprintf "m ssz=%d" !m_ssz)
+  | "mfail", v :: _ -> m_fail := Some (Conv.nat_of_int (int_of_string v)); Some (Printf.sprintf "m fail=%s" v)
+  | "mbooks", _ ->
+      let b = Hashtbl.length m_books and y = Hashtbl.fold (fun _ v acc -> acc + v) m_books 0 in
+      Some (Printf.sprintf "m books=%d:%d" b y)
+  | "malloc", k :: n :: _ -> Some (m_apply (MAlloc (nk (slot k), num n)) (slot k))
+  | "mappend", k :: n :: _ -> Some (m_apply (MAppend (nk (slot k), num n)) (slot k))
+  | "minsert", k :: n :: _ -> Some (m_apply (MInsert (nk (slot k), num n)) (slot k))
+  | "mtrim", k :: n :: _ -> Some (m_apply (MTrim (nk (slot k), num n)) (slot k))
+  | "mchop", k :: n :: _ -> Some (m_apply (MChop (nk (slot k), num n)) (slot k))
+  | "mrealloc", k :: n :: _ -> Some (m_apply (MRealloc (nk (slot k), num n)) (slot k))
+  | "mreserve", k :: n :: _ -> Some (m_apply (MReserve (nk (slot k), num n)) (slot k))
+  | "mclear", k :: _ -> Some (m_apply (MClear (nk (slot k))) (slot k))
+  | "mhappend", k :: n :: _ -> Some (m_apply (MHAppend (nk (slot k), num n)) (slot k))
+  | "mhinsert", k :: n :: _ -> Some (m_apply (MHInsert (nk (slot k), num n)) (slot k))
+  | "mhtrim", k :: n :: _ -> Some (m_apply (MHTrim (nk (slot k), num n)) (slot k))
+  | "mhchop", k :: n :: _ -> Some (m_apply (MHChop (nk (slot k), num n)) (slot k))
+  | "mhclear", k :: _ -> Some (m_apply (MHClear (nk (slot k))) (slot k))
+  | "mdup", k :: j :: _ -> Some (m_apply (MDup (nk (slot k), nk (slot j))) (slot j))
+  | "mfree", k :: _ -> Some (m_apply (MFree (nk (slot k))) (slot k))
+  (* model-only: what the driver reported of a send / receive over a real transport *)
+  | "mgive", k :: _ -> Some (m_apply (MGive (nk (slot k))) (slot k))
+  | "madopt", k :: a :: h :: l :: hl :: _ ->
+      Some (m_apply (MAdopt (nk (slot k), n_of_int (int_of_string a), n_of_int (int_of_string h),
+                             n_of_int (int_of_string l), n_of_int (int_of_string hl))) (slot k))
+  | _ -> None
+
 let main () =
   try
     while true do
@@ -268,7 +343,9 @@ let main () =
       match split_ws line with
       | [] -> ()
       | w :: _ when w.[0] = '#' -> ()
-      | "mark" :: k :: _ -> reset (); print_endline ("mark " ^ k)
+      | "mark" :: k :: _ -> reset (); m_reset (); print_endline ("mark " ^ k)
+      | op :: args when String.length op > 1 && op.[0] = 'm' && op <> "mark" && op <> "mstyle" && op <> "msleep"
+                        && (match m_command op args with Some l -> print_endline l; true | None -> false) -> ()
       | "open" :: s :: p :: _ ->
           (match List.assoc_opt p !protos with
            | Some mk -> Hashtbl.replace socks (idx s) (mk ()); Hashtbl.replace sock_ctxs (idx s) (ref []); observe 0 ""
@@ -400,7 +477,7 @@ let main () =
       | "aiotmo" :: a :: ms :: _ ->
           if int_of_string ms = 0 then Hashtbl.replace aio_zero (idx a) () else Hashtbl.remove aio_zero (idx a);
           observe 0 ""
-      | "sleep" :: _ | "poll" :: _ | "aiotmo" :: _ -> observe 0 ""
+      | "sleep" :: _ | "poll" :: _ | "aiotmo" :: _ | "mstyle" :: _ -> observe 0 ""
       | op :: _ -> print_endline ("badop " ^ op)
     done
   with End_of_file -> ()
